@@ -42,4 +42,12 @@ TIES = {
                 "rscp_DataType_IsADataType", "rscp_DataType_MarshalJSON", "rscp_DataType_UnmarshalJSON", "rscp_DataType_length",
                 "rscp_DataType_newEmpty", "rscp_DataType_new", "rscp_DataType_isValidValue"],
         leaves=["isRequest", "isResponse"]),
+    "Log": dict(
+        doc="Every Log call of package rscp (function:method:format,args) and the rendering of messages.",
+        shapes=["rscp_Message_String", "rscp_Tag_isSecret", "rscp_Write", "rscp_Read", "rscp_Client_authenticate"],
+        leaves=["authenticate_hideLog"],
+        lists=["rscpLogSites"]),
+    "Globals": dict(
+        doc="Package-level variables of package rscp and the (empty) list of functions writing them.",
+        lists=["rscpGlobals", "rscpGlobalWrites"]),
 }
